@@ -15,7 +15,16 @@ PROP = {
                    "per scenario. Compared with the uninterrupted outcome: terminal state, upstream map is a function "
                    "and equal, same resolver reports and final HTLC outcomes, fully-resolved only with an empty "
                    "contract bucket and no HTLC/commit output left open, every durable unresolved contract has a live "
-                   "resolver after restart."),
+                   "resolver after restart. Unit finalstage runs the last stage for real: a real ChainArbitrator over a "
+                   "real channeldb with the arbitrator log and the channel state in the same kvdb backend holds one "
+                   "channel closed by a PRNG-chosen close (remote / pending-remote / local / coop / breach with the "
+                   "justice tx confirmed at once or later; nothing at stake, 0-2 blocks before the close); every one "
+                   "of the W committed read-write transactions from the close event to the end (arbitrator log writes, "
+                   "CloseChannel, breach resolver writes, MarkChanFullyClosed, WipeHistory) is a stop point; after "
+                   "the stop a fresh channeldb.DB + ChainArbitrator.Start on the same backend re-creates the "
+                   "arbitrators from FetchAllChannels / FetchClosedChannels(pendingOnly), the close is re-delivered "
+                   "iff the channel is still open, blocks are driven, and (close recorded, pending-close, fully "
+                   "closed, close type) must equal the uninterrupted outcome."),
     "level_note": ("Stop = database frozen right after commit k AND, in the same instant in the committing goroutine, "
                    "the process is cut off from the world (nothing it does afterwards reaches switch, chain, sweeper "
                    "or notifier); the zombie is reaped with Stop(). That is a process stop at that instant for the "
@@ -26,12 +35,20 @@ PROP = {
                    "'Reaches the same terminal outcome' is bounded progress: the world is driven 12 blocks past the "
                    "last expiry with quiescence (all goroutines parked, no world/DB activity) awaited after every "
                    "block. The utxo nursery and the sweeper are part of the world model (their own persistence is not "
-                   "exercised). A swap that is not persisted is outcome-neutral (same resolver key, idempotent "
+                   "exercised). In unit restart MarkChannelClosed / NotifyChannelResolved are played by the world "
+                   "model; unit finalstage runs them for real (ChainArbitrator.ResolveContract, ChainArbitrator.Start, "
+                   "channeldb) but only with nothing at stake on the commitment (no HTLC, no commit output, no anchor: "
+                   "no sweeper involved; breach = breach resolver only). There the stop ends the committing goroutine "
+                   "on the spot (runtime.Goexit right after the commit) and freezes the database for all others; 30 "
+                   "rounds of quiescence+block bound 'never fully closed' (the uninterrupted run needs <= 1). An "
+                   "arbitrator log left behind for a fully closed channel (stop between MarkChanFullyClosed and "
+                   "WipeHistory) is not part of the statement: diagnostic final_log_differs only. A swap that is not persisted is outcome-neutral (same resolver key, idempotent "
                    "re-execution) and only shows up in a diagnostic."),
     "design_ref": "DESIGN.md §3 C13",
     "rule": ("A scenario is non-trivial when its uninterrupted run reaches StateFullyResolved; every one of its W "
              "durable writes is used as a stop point. distinct = distinct (close kind, lnd/env write site after which "
-             "the stop fell, number of HTLCs) stop-point classes actually reached."),
+             "the stop fell, number of HTLCs) stop-point classes actually reached, plus (unit finalstage) distinct "
+             "(close kind, lnd function that committed the write after which the stop fell) pairs."),
     "assumptions": ["world model: a mature input offered to the sweeper confirms in the next block; re-offered inputs "
                     "that are already spent are answered with the confirmed spender; spend/epoch registrations are "
                     "re-answered from chain state after a restart",
@@ -42,7 +59,8 @@ PROP = {
     "eval_counter": "stop_runs",
     "units": [{
         "name": "restart", "pkg": "contractcourt", "test": "TestVerifC13",
-        "files": ["contractcourt/c12c13_common_test.go", "contractcourt/c13_test.go"],
+        "files": ["contractcourt/c12c13_common_test.go", "contractcourt/c13_test.go",
+                  "contractcourt/c13final_test.go"],
         "shards": {"quick": 8, "thorough": 16},
         "watchdog": {"quick": 600, "thorough": 5400},
         "floors": {
@@ -53,6 +71,17 @@ PROP = {
                          "double_stop_reached": 130000, "oracle_terminal_evals": 340000,
                          "oracle_upstream_evals": 340000, "oracle_no_resolver_lost_evals": 340000,
                          "oracle_contracts_evals": 270000},
+        },
+    }, {
+        # Same file set as the unit above on purpose: the package is compiled once (build cache), only linked twice.
+        "name": "finalstage", "pkg": "contractcourt", "test": "TestVerifC13Final",
+        "files": ["contractcourt/c12c13_common_test.go", "contractcourt/c13_test.go",
+                  "contractcourt/c13final_test.go"],
+        "shards": {"quick": 4, "thorough": 8},
+        "watchdog": {"quick": 600, "thorough": 3600},
+        "floors": {
+            "quick": {"final_scenarios": 20, "final_stop_runs": 140, "oracle_final_terminal_evals": 140},
+            "thorough": {"final_scenarios": 600, "final_stop_runs": 4000, "oracle_final_terminal_evals": 4000},
         },
     }],
 }
